@@ -118,9 +118,11 @@ Below == CRq - 1
 NotBelow == CRq
 (* exponential: every run length (k leading draws below CR); binomial: every pattern of D draws; *)
 (* one spare draw at the end in both (an implementation asking for more than that fails)        *)
-ExpDraws(d) == {[i \in 1..(d + 1) |-> IF i <= k THEN Below ELSE NotBelow] : k \in 0..(d + 1)}
-BinDraws(d) == {b \o <<NotBelow>> : b \in [1..d -> {Below, NotBelow}]}
-DrawSeqs(s, d) == IF AllDraws THEN [1..(d + 1) -> {Below, NotBelow}]
+(* with CR = 0 no draw of random() in [0,1) is below CR: only the forced position can be mutated *)
+DrawVals == IF CRq = 0 THEN {NotBelow} ELSE {Below, NotBelow}
+ExpDraws(d) == {[i \in 1..(d + 1) |-> IF i <= k THEN Below ELSE NotBelow] : k \in 0..(IF CRq = 0 THEN 0 ELSE d + 1)}
+BinDraws(d) == {b \o <<NotBelow>> : b \in [1..d -> DrawVals]}
+DrawSeqs(s, d) == IF AllDraws THEN [1..(d + 1) -> DrawVals]
                   ELSE IF s \in BinNames THEN BinDraws(d) ELSE ExpDraws(d)
 
 (* ---- the strategy: returns [t, w, used, slack, odd] ----------------------------------------- *)
